@@ -69,6 +69,10 @@ type Frame struct {
 	OnPanic  func(st *State, pv Value)
 	Prefix   string // name prefix for obligations inside inlined frames
 	GoMode   bool   // executing a goroutine body (ownership rule)
+	GoRoot     bool // this frame is the goroutine's own function
+	Owned      []ownedLoc
+	SpawnAlloc string
+	OnPanicGo  string
 	Panicking bool
 	PanicVal  Value
 	Recovered bool
